@@ -3,12 +3,12 @@ CONSTANTS
   Peers = {p1, p2}
   PeerSeq <- PSAll
   Trees = {t1}
-  Acl <- None
-  Kv <- None
-  Changes = {c1, c2}
+  Acl <- AclS
+  Kv <- KvS
+  Changes = {c1}
   MaxPend = 2
   Dev <- None
-  Budget <- Bq
+  Budget <- Bs
 SYMMETRY Sym
 INVARIANT TypeOK
 INVARIANT IdxFollowsStore
